@@ -1,26 +1,26 @@
 #!/bin/sh
-# confirm_seed.sh <ID> [checks...] : confirm a seeded change written by a sub-agent in /tmp/wt_<ID> + /tmp/agent_<ID>:
+# confirm_seed.sh <NAME> <PROPERTY> <WORKTREE> <AGENT_DIR> : confirm a seeded change written by a sub-agent:
 #  builds the changed tree with meson, runs the upstream suite, runs the demo against the changed and a pristine build,
-#  runs the given checks (default: the property's own) with --repo <changed tree>, writes /verif/seeded/<ID>/
-ID=$1; shift
-CHECKS=${*:-$ID}
-WT=/tmp/wt_$ID; AG=/tmp/agent_$ID; OUT=/verif/seeded/$ID
+#  runs ./check <PROPERTY> --repo <changed tree>, writes /verif/seeded/<NAME>/
+NAME=$1; PROP=$2; WT=$3; AG=$4
+OUT=/verif/seeded/$NAME
 PRIS=/tmp/wt_pristine
 mkdir -p $OUT
 exec > $OUT/confirm.log 2>&1
 set -x
 git -C $WT diff > $OUT/patch.diff
-cp $AG/demo*.c $AG/*.sh $AG/README.md $OUT/ 2>/dev/null
+cp $AG/*.c $AG/*.sh $AG/README.md $OUT/ 2>/dev/null
 cp $AG/*.h $AG/*.py $OUT/ 2>/dev/null
 (cd $WT && rm -rf _b && meson setup _b -Denable_docs=false >/dev/null && meson compile -C _b > $OUT/compile.log 2>&1) ; COMPILE=$?
 (cd $WT && meson test -C _b > $OUT/upstream_tests.log 2>&1); TESTS=$?
-sh $OUT/build_and_run.sh $WT $WT/_b > $OUT/demo_changed.log 2>&1; DEMO_CHANGED=$?
-sh $OUT/build_and_run.sh $PRIS $PRIS/_b > $OUT/demo_pristine.log 2>&1; DEMO_PRISTINE=$?
-rm -rf $WT/_b
+rundemo() { # $1 tree  $2 log
+  sh $OUT/build_and_run.sh $1 $1/_b > $2 2>&1; r=$?
+  if grep -q "fatal error\|No such file or directory\|usage:" $2; then sh $OUT/build_and_run.sh $1/_b > $2 2>&1; r=$?; fi
+  return $r
+}
+rundemo $WT $OUT/demo_changed.log; DEMO_CHANGED=$?
+rundemo $PRIS $OUT/demo_pristine.log; DEMO_PRISTINE=$?
+rm -rf $WT/_b $OUT/compile.log
 set +x
-RES=""
-for c in $CHECKS; do
-  (cd /verif && ./check $c --tier quick --repo $WT > $OUT/check_$c.log 2>&1); rc=$?
-  RES="$RES $c:$rc"
-done
-echo "SUMMARY id=$ID compile=$COMPILE upstream_tests=$TESTS demo_changed=$DEMO_CHANGED demo_pristine=$DEMO_PRISTINE checks=$RES"
+(cd /verif && ./check $PROP --tier quick --repo $WT > $OUT/check_$PROP.log 2>&1); rc=$?
+echo "SUMMARY name=$NAME compile=$COMPILE upstream_tests=$TESTS demo_changed=$DEMO_CHANGED demo_pristine=$DEMO_PRISTINE check_$PROP=$rc"
